@@ -395,6 +395,19 @@ impl<'a> Gen<'a> {
             self.maybe_query(1, 12);
         }
         self.random_query();
+        // one time in three a HUB: a live argument attacking 16-24 others (adjacency lists above 16 entries), one of
+        // its attacks repeated (redundant, when the history may contain such updates), removed, and the target queried
+        if self.rng.chance(1, 3) && k >= 20 {
+            let h = ls[0];
+            let fan = self.rng.range(16, (k - 1).min(24));
+            for i in 1..=fan { self.att(h, ls[i]); }
+            let t = ls[self.rng.range(1, fan)];
+            self.query_on(t);
+            if self.invalid { self.up(Op::NewAtt(h, t)); }
+            self.up(Op::RemAtt(h, t));
+            self.query_on(t);
+            if self.invalid && self.rng.chance(1, 2) { self.up(Op::RemAtt(h, t)); self.query_on(t); }
+        }
     }
     /// j arguments added and removed again: the ids of everything that follows are sparse
     fn junk_prelude(&mut self, j: usize) {
